@@ -264,6 +264,36 @@ func (s *slicer) walk(v ssa.Value, visit func(ssa.Value), depth int) {
 			if x.Call.IsInvoke() {
 				s.walk(x.Call.Value, visit, depth+1)
 			}
+			// accumulator reads (hash.Sum, Builder.String, Buffer.Bytes): the value also
+			// depends on everything written into the accumulator before
+			name := ""
+			var recv ssa.Value
+			if x.Call.IsInvoke() {
+				name, recv = x.Call.Method.Name(), x.Call.Value
+			} else if sc := x.Call.StaticCallee(); sc != nil && sc.Signature.Recv() != nil && len(x.Call.Args) > 0 {
+				name, recv = sc.Name(), x.Call.Args[0]
+			}
+			if recv != nil && (name == "Sum" || name == "String" || name == "Bytes") {
+				if refs := recv.Referrers(); refs != nil {
+					for _, ref := range *refs {
+						w, ok := ref.(*ssa.Call)
+						if !ok || w == x {
+							continue
+						}
+						wn := ""
+						if w.Call.IsInvoke() {
+							wn = w.Call.Method.Name()
+						} else if sc := w.Call.StaticCallee(); sc != nil {
+							wn = sc.Name()
+						}
+						if strings.HasPrefix(wn, "Write") || strings.HasPrefix(wn, "Fprint") {
+							for _, a := range w.Call.Args {
+								s.walk(a, visit, depth+1)
+							}
+						}
+					}
+				}
+			}
 		}
 	}
 }
